@@ -74,6 +74,9 @@ static std::string idstr(int id) { return id < 0 ? std::string(id == -1 ? "null"
 // id(): -1 = moved-from (null crew).  contents(): sorted keys (mapped values must equal key + 7 -> flag otherwise).
 static bool g_value_error = false;
 static bool g_unusual = false;
+// raw fields of both operands before / after a Swap, move construction or move assignment, for the direct run of the GENERATED
+// Swap / MoveCtor (stage corr:generated-vs-code); values are renamed injectively (null / 0 -> 0, others by first appearance)
+static std::string g_gh;
 static int64_t g_base = 1000;
 
 
@@ -784,6 +787,15 @@ template<typename Ad> static void run_case(const Case& cs, FILE* out)
 			// of them, move construction / move assignment hand ALL of them to the target (theorems about the generated Swap / MoveCtor)
 			if (op == "swap" && (Ad::handles(T) != hS || Ad::handles(S) != hT)) fail("swap-left-a-handle-behind");
 			if ((op == "movec" || op == "movea") && Ad::handles(T) != hS) fail("move-did-not-take-every-handle");
+			if ((op == "swap" || op == "movec" || op == "movea") && hS.size() == 4)
+			{
+				std::vector<const void*> seen; auto nm = [&seen](const void* p) { if (!p) return 0; for (size_t i = 0; i < seen.size(); ++i) if (seen[i] == p) return (int)i + 1; seen.push_back(p); return (int)seen.size(); };
+				std::vector<const void*> z4(4, nullptr), aT = Ad::handles(T), aS = Ad::handles(S);
+				g_gh = "gh=" + op + " " + cs.kind;
+				for (const auto* v : { op == "movec" ? &z4 : &hT, &hS }) for (const void* p : *v) g_gh += " " + std::to_string(nm(p));
+				g_gh += " =";
+				for (const auto* v : { &aT, &aS }) for (const void* p : *v) g_gh += " " + std::to_string(nm(p));
+			}
 		}
 		if (op == "swap") { if (tc != s0 || sc != t0) fail("swap-not-exact"); if (dc != 0 && kMovable) fail("swap-copied-elements"); }
 		if (self) { if (sc != s0) fail("self-op-changed-contents"); if (dc != 0 && op != "selfcopya" && kMovable) fail("self-op-copied"); if (sId != cs.sid) fail("self-op-changed-manager"); }
@@ -911,7 +923,8 @@ template<typename Ad> static void run_case(const Case& cs, FILE* out)
 	if (!w.errors.empty()) { std::string e = w.errors[0]; for (char& ch : e) if (ch == ' ') ch = '_'; fail("kit:" + e); }
 	// E = a memory-protocol error was seen by kit (deallocation through a foreign manager, double free, ...): the
 	// model's counterpart is the WrongMgr outcome
-	fprintf(out, "%s E=%d | orc=%s%s\n", tie.c_str(), w.errors.empty() ? 0 : 1, why.empty() ? "ok" : why.c_str() + 1, g_unusual ? " nt" : "");
+	fprintf(out, "%s E=%d | orc=%s%s%s%s\n", tie.c_str(), w.errors.empty() ? 0 : 1, why.empty() ? "ok" : why.c_str() + 1, g_unusual ? " nt" : "",
+		g_gh.empty() ? "" : " | ", g_gh.c_str());
 }
 
 static bool dispatch(const Case& cs, FILE* out)
